@@ -1,2 +1,1021 @@
-// stub created by the lead so that the workspace always loads; replace it with the check
-fn main() {}
+//! C02 — encode/decode round trip preserves every message.
+//!
+//! Direction 1 (E-ENUM over assembled messages): every message built from a record alphabet that
+//! covers every RData variant of the build (each with its RDATA wire form written by hand from the
+//! defining RFC) x section placements x questions x EDNS x TSIG, all header flag / opcode / rcode
+//! combinations, UPDATE messages with empty-RDATA records, and compression sweeps. Oracle: the
+//! independent wire walker (`vref::wire`) reads hickory's encoding completely, finds the original
+//! names (case-sensitively) and — for every record — exactly the RFC RDATA octets (after expanding
+//! names for NS/CNAME/PTR/MX/SOA); hickory decodes its own encoding to a message equal to the
+//! original field by field, names compared with `eq_case`, TTLs included.
+//!
+//! Direction 2 (decode first): every message-shaped byte string of the C01 families that
+//! `Message::from_vec` accepts and `to_vec` re-encodes: the re-encoding decodes to the same
+//! message, and RDATA of types whose names are not compressible is identical octet for octet.
+
+use c01::alphabet::{compressible_type, hn, labels, rdata_alphabet, record_alphabet, wn, Entry as AEntry, Rec};
+use c01::families::{self, HEADER_SHAPES, S};
+use c01::msgs::{edns_variants, tsig_variants};
+use c01::names::rdata_names_eq_case;
+use c01::seeds;
+use c01::wirex::{decompress_rdata, noncompressible_name_has_pointer};
+use hickory_proto::op::{Edns, Message, MessageType, OpCode, Query, ResponseCode};
+use hickory_proto::rr::rdata::{A, MX, NS, NULL, SOA, SRV, TSIG};
+use hickory_proto::rr::{DNSClass, Name, RData, Record, RecordType};
+use serde_json::{json, Value};
+use vcore::{catch, fnv64, hex, Ctx, Local, Odometer};
+use vref::wire;
+
+// ------------------------------------------------------------------------------------------
+// deep comparison (hickory's PartialEq ignores TTLs and the case of names)
+
+fn name_eq(a: &Name, b: &Name) -> bool {
+    a.eq_case(b) && a.is_fqdn() == b.is_fqdn()
+}
+
+fn record_diff(a: &Record, b: &Record) -> Option<&'static str> {
+    if !name_eq(&a.name, &b.name) {
+        return Some("owner");
+    }
+    if a.record_type() != b.record_type() {
+        return Some("type");
+    }
+    if u16::from(a.dns_class) != u16::from(b.dns_class) {
+        return Some("class");
+    }
+    if a.ttl != b.ttl {
+        return Some("ttl");
+    }
+    if a.data != b.data {
+        return Some("rdata");
+    }
+    if !rdata_names_eq_case(&a.data, &b.data) {
+        return Some("rdata-name-case");
+    }
+    None
+}
+
+fn section_diff(a: &[Record], b: &[Record]) -> Option<&'static str> {
+    if a.len() != b.len() {
+        return Some("count");
+    }
+    a.iter().zip(b.iter()).find_map(|(x, y)| record_diff(x, y))
+}
+
+/// First field in which two messages differ ("<section>:<field>"), `None` if equal.
+fn message_diff(a: &Message, b: &Message, derived_rcode_high: bool) -> Option<String> {
+    let (x, y) = (&a.metadata, &b.metadata);
+    let hdr = [
+        ("id", x.id != y.id),
+        ("qr", x.message_type != y.message_type),
+        ("opcode", u8::from(x.op_code) != u8::from(y.op_code)),
+        ("aa", x.authoritative != y.authoritative),
+        ("tc", x.truncation != y.truncation),
+        ("rd", x.recursion_desired != y.recursion_desired),
+        ("ra", x.recursion_available != y.recursion_available),
+        ("ad", x.authentic_data != y.authentic_data),
+        ("cd", x.checking_disabled != y.checking_disabled),
+        ("rcode", u16::from(x.response_code) != u16::from(y.response_code)),
+    ];
+    if let Some((f, _)) = hdr.iter().find(|(_, d)| *d) {
+        return Some(format!("header:{f}"));
+    }
+    if a.queries.len() != b.queries.len() {
+        return Some("question:count".into());
+    }
+    for (p, q) in a.queries.iter().zip(b.queries.iter()) {
+        if !name_eq(&p.name, &q.name) {
+            return Some("question:name".into());
+        }
+        if p.query_type != q.query_type || u16::from(p.query_class) != u16::from(q.query_class) {
+            return Some("question:type-class".into());
+        }
+    }
+    for (sec, p, q) in [("answer", &a.answers, &b.answers), ("authority", &a.authorities, &b.authorities), ("additional", &a.additionals, &b.additionals)] {
+        if let Some(f) = section_diff(p, q) {
+            return Some(format!("{sec}:{f}"));
+        }
+    }
+    match (&a.edns, &b.edns) {
+        (None, None) => {}
+        (Some(p), Some(q)) => {
+            // the OPT copy of the upper rcode bits is derived from the header rcode (compared above) when
+            // a message is assembled; between two decoded messages it must agree
+            if !derived_rcode_high && p.rcode_high() != q.rcode_high() {
+                return Some("edns:rcode-high".into());
+            }
+            if p.version() != q.version() || p.flags() != q.flags() {
+                return Some("edns:version-flags".into());
+            }
+            if p.max_payload() != q.max_payload() {
+                return Some("edns:payload".into());
+            }
+            if p.options() != q.options() {
+                return Some("edns:options".into());
+            }
+        }
+        _ => return Some("edns:presence".into()),
+    }
+    match (&a.signature, &b.signature) {
+        (None, None) => {}
+        (Some(p), Some(q)) => {
+            if !name_eq(&p.name, &q.name) {
+                return Some("tsig:name".into());
+            }
+            if u16::from(p.dns_class) != u16::from(q.dns_class) || p.ttl != q.ttl {
+                return Some("tsig:class-ttl".into());
+            }
+            if p.data != q.data {
+                return Some("tsig:rdata".into());
+            }
+        }
+        _ => return Some("tsig:presence".into()),
+    }
+    None
+}
+
+fn labels_of(n: &Name) -> Vec<Vec<u8>> {
+    n.iter().map(|l| l.to_vec()).collect()
+}
+
+fn wire_len(ls: &[Vec<u8>]) -> usize {
+    ls.iter().map(|l| l.len() + 1).sum::<usize>() + 1
+}
+
+// ------------------------------------------------------------------------------------------
+// direction 1: assembled messages
+
+/// A record together with the RDATA octets its defining RFC prescribes (names uncompressed).
+#[derive(Clone, Debug)]
+struct XRec {
+    record: Record,
+    rtype: u16,
+    wire: Vec<u8>,
+}
+
+struct Alpha {
+    entries: Vec<AEntry>,
+    levels: [Vec<Rec>; 3],
+    edns: Vec<(&'static str, Edns)>,
+    tsig: Vec<(&'static str, Box<Record<TSIG>>)>,
+}
+
+impl Alpha {
+    fn new(thorough: bool) -> Alpha {
+        let entries = rdata_alphabet(thorough);
+        let levels = [record_alphabet(&entries, 0), record_alphabet(&entries, 1), record_alphabet(&entries, 2)];
+        Alpha { entries, levels, edns: edns_variants(), tsig: tsig_variants() }
+    }
+    fn xrec(&self, level: u8, i: usize) -> XRec {
+        let r = &self.levels[level as usize][i];
+        let e = &self.entries[r.entry];
+        XRec { record: r.record.clone(), rtype: e.rtype, wire: e.wire.clone() }
+    }
+}
+
+const OPCODES: [u8; 7] = [0, 2, 4, 5, 1, 3, 15];
+const RCODES: [u16; 11] = [0, 1, 3, 10, 15, 16, 17, 22, 23, 24, 4095];
+
+fn questions(q: u8) -> Vec<Query> {
+    let mk = |n: &str, t: RecordType, c: DNSClass| {
+        let mut q = Query::new(hn(n), t);
+        q.set_query_class(c);
+        q
+    };
+    match q {
+        0 => vec![],
+        1 => vec![mk("a.z.", RecordType::A, DNSClass::IN)],
+        2 => vec![mk("A.Z.", RecordType::ANY, DNSClass::CH)],
+        _ => vec![mk("b.a.z.", RecordType::AAAA, DNSClass::IN), mk("z.", RecordType::SOA, DNSClass::ANY)],
+    }
+}
+
+#[derive(Clone, Debug, Default)]
+struct Spec {
+    level: u8,
+    /// (index into the record alphabet of `level`, section 0/1/2), in emission order per section
+    recs: Vec<(usize, u8)>,
+    /// empty-RDATA (RFC 2136) records: (type code, class code, section)
+    upd: Vec<(u16, u16, u8)>,
+    q: u8,
+    edns: i32,
+    tsig: i32,
+    /// bit 0 QR, 1 AA, 2 TC, 3 RD, 4 RA, 5 AD, 6 CD
+    flags: u8,
+    opcode: u8,
+    rcode: u16,
+}
+
+impl Spec {
+    fn to_json(&self, thorough: bool) -> Value {
+        json!({"dir": 1, "family": "spec", "thorough": thorough, "level": self.level,
+               "recs": self.recs.iter().map(|(i, s)| json!([i, s])).collect::<Vec<_>>(),
+               "upd": self.upd.iter().map(|(t, c, s)| json!([t, c, s])).collect::<Vec<_>>(),
+               "q": self.q, "edns": self.edns, "tsig": self.tsig, "flags": self.flags, "opcode": self.opcode, "rcode": self.rcode})
+    }
+    fn from_json(v: &Value) -> Spec {
+        let u = |x: &Value| x.as_u64().unwrap_or(0);
+        Spec {
+            level: u(&v["level"]) as u8,
+            recs: v["recs"].as_array().map(|a| a.iter().map(|p| (u(&p[0]) as usize, u(&p[1]) as u8)).collect()).unwrap_or_default(),
+            upd: v["upd"].as_array().map(|a| a.iter().map(|p| (u(&p[0]) as u16, u(&p[1]) as u16, u(&p[2]) as u8)).collect()).unwrap_or_default(),
+            q: u(&v["q"]) as u8,
+            edns: v["edns"].as_i64().unwrap_or(-1) as i32,
+            tsig: v["tsig"].as_i64().unwrap_or(-1) as i32,
+            flags: u(&v["flags"]) as u8,
+            opcode: u(&v["opcode"]) as u8,
+            rcode: u(&v["rcode"]) as u16,
+        }
+    }
+
+    /// The message and, per section, the expected (type, RFC RDATA) of every record.
+    fn build(&self, al: &Alpha) -> (Message, [Vec<XRec>; 3]) {
+        let mt = if self.flags & 1 != 0 { MessageType::Response } else { MessageType::Query };
+        let mut m = Message::new(0xbeef, mt, OpCode::from_u8(self.opcode));
+        m.metadata.authoritative = self.flags & 2 != 0;
+        m.metadata.truncation = self.flags & 4 != 0;
+        m.metadata.recursion_desired = self.flags & 8 != 0;
+        m.metadata.recursion_available = self.flags & 16 != 0;
+        m.metadata.authentic_data = self.flags & 32 != 0;
+        m.metadata.checking_disabled = self.flags & 64 != 0;
+        m.metadata.response_code = ResponseCode::from((self.rcode >> 4) as u8, (self.rcode & 0xf) as u8);
+        for q in questions(self.q) {
+            m.add_query(q);
+        }
+        let mut exp: [Vec<XRec>; 3] = [vec![], vec![], vec![]];
+        for (i, s) in &self.recs {
+            exp[*s as usize].push(al.xrec(self.level, *i));
+        }
+        for (t, c, s) in &self.upd {
+            let mut r = Record::update0(hn(["z.", "a.z.", "B.a.z."][(*t as usize + *c as usize) % 3]), 0, RecordType::from(*t));
+            r.dns_class = DNSClass::from(*c);
+            exp[*s as usize].push(XRec { record: r, rtype: *t, wire: vec![] });
+        }
+        for x in &exp[0] {
+            m.add_answer(x.record.clone());
+        }
+        for x in &exp[1] {
+            m.add_authority(x.record.clone());
+        }
+        for x in &exp[2] {
+            m.add_additional(x.record.clone());
+        }
+        if self.edns >= 0 {
+            // Edns::rcode_high stays 0 as a user leaves it: the encoder has to commit the upper rcode bits
+            m.set_edns(al.edns[self.edns as usize].1.clone());
+        }
+        if self.tsig >= 0 {
+            m.set_signature(al.tsig[self.tsig as usize].1.clone());
+        }
+        (m, exp)
+    }
+}
+
+/// Judge one assembled message. `exp`: per section the records with their RFC RDATA.
+fn judge_d1(m: &Message, exp: &[Vec<XRec>; 3], l: &mut Local, case: &dyn Fn() -> Value) {
+    l.eval();
+    let bytes = match catch(|| m.to_vec()) {
+        Err(p) => return l.violation(&format!("panic:{}", vcore::short_loc(&p.loc)), &format!("encoder panicked: {}", p.msg), case),
+        Ok(Err(e)) => return l.violation("encode-failed", &format!("a valid message does not encode: {e}"), case),
+        Ok(Ok(b)) => b,
+    };
+    let wcase = || {
+        let mut c = case();
+        c["encoded"] = json!(hex::enc(&bytes));
+        c
+    };
+    // SIG is a meta record like OPT and TSIG: outside the additional section the decoder refuses it
+    let sig_misplaced = exp[0].iter().chain(exp[1].iter()).any(|x| x.rtype == 24);
+
+    // (a) independent reading of the encoding
+    let w = match wire::walk(&bytes) {
+        Ok(w) => w,
+        Err(e) => return l.violation("wire:walker-rejects", &format!("reference walker cannot read hickory's encoding: {e:?}"), &wcase),
+    };
+    if w.consumed != bytes.len() {
+        return l.violation("wire:leftover-bytes", &format!("{} octets encoded, sections end at {}", bytes.len(), w.consumed), &wcase);
+    }
+    if w.questions.len() != m.queries.len() {
+        return l.violation("wire:question-count", "QDCOUNT differs from the questions assembled", &wcase);
+    }
+    let mut compressed = false;
+    for (wq, q) in w.questions.iter().zip(m.queries.iter()) {
+        if wq.name != labels_of(&q.name) || wq.qtype != u16::from(q.query_type) || wq.qclass != u16::from(q.query_class) {
+            return l.violation("wire:question", "question on the wire differs from the one assembled", &wcase);
+        }
+    }
+    let extra_ar = m.edns.is_some() as usize + m.signature.is_some() as usize;
+    let secs = [&w.answers, &w.authorities, &w.additionals];
+    for s in 0..3 {
+        let want = exp[s].len() + if s == 2 { extra_ar } else { 0 };
+        if secs[s].len() != want {
+            return l.violation("wire:record-count", &format!("section {s}: {} records on the wire, {} assembled", secs[s].len(), want), &wcase);
+        }
+        for (wr, x) in secs[s].iter().zip(exp[s].iter()) {
+            let r = &x.record;
+            let ol = labels_of(&r.name);
+            if wr.name != ol {
+                return l.violation("wire:owner", &format!("owner on the wire {:?} != assembled {}", wire::name_to_string(&wr.name), r.name), &wcase);
+            }
+            if wr.rdata_start - 10 - wr.start < wire_len(&ol) {
+                compressed = true;
+            }
+            if wr.rtype != x.rtype || wr.class != u16::from(r.dns_class) || wr.ttl != r.ttl {
+                return l.violation("wire:fixed-fields", &format!("type/class/ttl on the wire differ for a type {} record", x.rtype), &wcase);
+            }
+            let raw = &bytes[wr.rdata_start..wr.rdata_end];
+            if x.wire.is_empty() {
+                // RFC 2136 empty-RDATA record
+                if !raw.is_empty() {
+                    return l.violation("rdata-octets:update-empty", "an empty-RDATA record was encoded with RDATA", &wcase);
+                }
+            } else if compressible_type(x.rtype) {
+                if raw.len() < x.wire.len() {
+                    compressed = true;
+                }
+                match decompress_rdata(&bytes, x.rtype, wr.rdata_start, wr.rdata_end) {
+                    Some(d) if d == x.wire => {}
+                    other => {
+                        return l.violation(
+                            &format!("rdata-octets-after-expansion:type{}", x.rtype),
+                            &format!("RDATA {} expands to {:?}, RFC form {}", hex::enc(raw), other.map(|d| hex::enc(&d)), hex::enc(&x.wire)),
+                            &wcase,
+                        )
+                    }
+                }
+            } else if raw != &x.wire[..] {
+                return l.violation(
+                    &format!("rdata-octets:type{}", x.rtype),
+                    &format!("RDATA on the wire {} != RFC form {}", hex::enc(raw), hex::enc(&x.wire)),
+                    &wcase,
+                );
+            }
+        }
+    }
+
+    // (b) hickory reads its own encoding back
+    let dec = match catch(|| Message::from_vec(&bytes)) {
+        Err(_) => return l.outcome("obs:decode-panic(C01)"),
+        Ok(Err(e)) => {
+            if sig_misplaced {
+                return l.outcome("obs:sig-outside-additional-section-not-decodable");
+            }
+            return l.violation("own-encoding-rejected", &format!("Message::from_vec rejects Message::to_vec output: {e}"), &wcase);
+        }
+        Ok(Ok(d)) => d,
+    };
+    if let Some(f) = message_diff(m, &dec, true) {
+        return l.violation(&format!("roundtrip-differs:{f}"), "decode(encode(m)) != m", &wcase);
+    }
+    if u16::from(m.metadata.response_code) == 16 && m.metadata.response_code != dec.metadata.response_code {
+        l.outcome("obs:rcode-16-decodes-as-BADSIG-not-BADVERS");
+    }
+    let ext = m.edns.is_some() || m.signature.is_some() || u16::from(m.metadata.response_code) > 15;
+    if compressed || ext {
+        l.nontrivial(fnv64(&bytes));
+    }
+    l.outcome(if compressed { "d1:ok:compressed" } else { "d1:ok:plain" });
+}
+
+// ---- compression sweeps ------------------------------------------------------------------
+
+const SWEEPS: [&str; 7] = ["same-owner", "distinct-owners", "ns-targets", "mx-mixed-case", "srv-target-then-owner", "deep-suffixes", "soa-names"];
+
+fn xr(owner: &str, ttl: u32, rtype: u16, data: RData, wire: Vec<u8>) -> XRec {
+    XRec { record: Record::from_rdata(hn(owner), ttl, data), rtype, wire }
+}
+
+fn sweep(variant: &str, n: usize) -> (Message, [Vec<XRec>; 3]) {
+    let mut m = Message::new(7, MessageType::Response, OpCode::Query);
+    m.add_query(Query::new(hn("a.z."), RecordType::A));
+    let mut exp: [Vec<XRec>; 3] = [vec![], vec![], vec![]];
+    let mut deep = String::from("z.");
+    for i in 0..n {
+        let sec = if i * 3 < n { 0 } else if i * 3 < 2 * n { 1 } else { 2 };
+        let a4 = |i: usize| (RData::A(A::new(10, 0, (i >> 8) as u8, i as u8)), vec![10, 0, (i >> 8) as u8, i as u8]);
+        match variant {
+            "same-owner" => {
+                let (d, w) = a4(i);
+                exp[sec].push(xr("a.z.", i as u32, 1, d, w));
+            }
+            "distinct-owners" => {
+                let (d, w) = a4(i);
+                exp[sec].push(xr(&format!("h{i}.a.z."), 1, 1, d, w));
+            }
+            "ns-targets" => {
+                let t = format!("ns{i}.a.z.");
+                exp[sec].push(xr("a.z.", 1, 2, RData::NS(NS(hn(&t))), wn(&t)));
+            }
+            "mx-mixed-case" => {
+                let o = ["a.z.", "A.Z.", "a.Z."][i % 3];
+                let t = if i % 2 == 0 { format!("Mail{i}.A.z.") } else { format!("mail{}.a.z.", i - 1) };
+                let mut w = (i as u16).to_be_bytes().to_vec();
+                w.extend(wn(&t));
+                exp[sec].push(xr(o, 1, 15, RData::MX(MX::new(i as u16, hn(&t))), w));
+            }
+            "srv-target-then-owner" => {
+                let t = format!("T{i}.Srv.z.");
+                let mut w = vec![0, 1, 0, 2, 0, 53];
+                w.extend(wn(&t));
+                exp[sec].push(xr("_s._tcp.z.", 1, 33, RData::SRV(SRV::new(1, 2, 53, hn(&t))), w));
+                let (d, w) = a4(i);
+                exp[sec].push(xr(&t, 1, 1, d.clone(), w.clone()));
+                exp[sec].push(xr(&t.to_lowercase(), 1, 1, d, w));
+            }
+            "deep-suffixes" => {
+                let next = format!("l{}.{}", i % 10, deep);
+                deep = if wn_len(&next) > 240 { String::from("z.") } else { next };
+                let (d, w) = a4(i);
+                exp[sec].push(xr(&deep, 1, 1, d, w));
+            }
+            _ => {
+                let (mn, rn) = (format!("ns{}.a.z.", i % 7), format!("Admin{}.NS{}.a.z.", i, i % 7));
+                let mut w = wn(&mn);
+                w.extend(wn(&rn));
+                for v in [i as u32, 2, 3, 4, 5] {
+                    w.extend_from_slice(&v.to_be_bytes());
+                }
+                exp[sec].push(xr("a.z.", 1, 6, RData::SOA(SOA::new(hn(&mn), hn(&rn), i as u32, 2, 3, 4, 5)), w));
+            }
+        }
+    }
+    for x in &exp[0] {
+        m.add_answer(x.record.clone());
+    }
+    for x in &exp[1] {
+        m.add_authority(x.record.clone());
+    }
+    for x in &exp[2] {
+        m.add_additional(x.record.clone());
+    }
+    (m, exp)
+}
+
+fn wn_len(s: &str) -> usize {
+    labels(s).iter().map(|l| l.len() + 1).sum::<usize>() + 1
+}
+
+/// A padding NULL record moves the first occurrence of `Big.Name.Example.` to offset `target`
+/// (0x3ff0..=0x4010: around the largest offset a 14-bit pointer can express); later records
+/// reuse the name, a suffix of it, and a lower-case twin. Variant 1 puts the first occurrence into
+/// the RDATA of an SRV record (never compressed, but a legal pointer target).
+fn offset_case(variant: u8, target: usize) -> (Message, [Vec<XRec>; 3]) {
+    let mut m = Message::new(9, MessageType::Response, OpCode::Query);
+    m.add_query(Query::new(hn("z."), RecordType::NS));
+    // header 12 + question (z. = 3 octets + 4) = 19; pad record: owner 1 + 10 + L
+    let first_fixed = if variant == 0 { 0 } else { 10 + 10 + 6 }; // SRV owner "_s._tcp.z." compresses to 8+2=10 octets
+    let pad = target - 19 - 11 - first_fixed;
+    let blob: Vec<u8> = (0..pad).map(|i| (i % 251) as u8).collect();
+    let mut an = vec![XRec { record: Record::from_rdata(Name::root(), 1, RData::NULL(NULL::with(blob.clone()))), rtype: 10, wire: blob }];
+    let big = "Big.Name.Example.";
+    let a = |o: &str| xr(o, 1, 1, RData::A(A::new(192, 0, 2, 1)), vec![192, 0, 2, 1]);
+    if variant == 0 {
+        an.push(a(big));
+    } else {
+        let mut w = vec![0, 1, 0, 2, 0, 53];
+        w.extend(wn(big));
+        an.push(xr("_s._tcp.z.", 1, 33, RData::SRV(SRV::new(1, 2, 53, hn(big))), w));
+    }
+    an.push(a(big));
+    an.push(xr("Name.Example.", 1, 2, RData::NS(NS(hn("ns.Big.Name.Example."))), wn("ns.Big.Name.Example.")));
+    let mut w = vec![0, 5];
+    w.extend(wn("mail.big.name.example."));
+    an.push(xr("example.", 1, 15, RData::MX(MX::new(5, hn("mail.big.name.example."))), w));
+    an.push(a("ns.Big.Name.Example."));
+    for x in &an {
+        m.add_answer(x.record.clone());
+    }
+    (m, [an, vec![], vec![]])
+}
+
+// ------------------------------------------------------------------------------------------
+// direction 2: decode first
+
+#[derive(Default)]
+struct Tally {
+    rejected: u64,
+    reencode_failed: u64,
+    ok: u64,
+    nontrivial: u64,
+}
+
+fn judge_d2(b: &[u8], hashed: bool, t: &mut Tally, l: &mut Local, case: &dyn Fn() -> Value) {
+    l.eval();
+    let d1 = match catch(|| Message::from_vec(b)) {
+        Err(_) => return l.outcome("obs:decode-panic(C01)"),
+        Ok(Err(_)) => {
+            t.rejected += 1;
+            return;
+        }
+        Ok(Ok(d)) => d,
+    };
+    let e = match catch(|| d1.to_vec()) {
+        Err(p) => return l.violation(&format!("panic:{}", vcore::short_loc(&p.loc)), &format!("re-encoding a decoded message panicked: {}", p.msg), case),
+        Ok(Err(err)) => {
+            // the statement speaks about strings that re-encode; a refusal is logged, not judged
+            t.reencode_failed += 1;
+            let kind = format!("{err:?}");
+            let kind: String = kind.chars().take_while(|c| c.is_ascii_alphanumeric()).collect();
+            return l.outcome(&format!("obs:reencode-refused:{kind}"));
+        }
+        Ok(Ok(e)) => e,
+    };
+    let wcase = || {
+        let mut c = case();
+        c["reencoded"] = json!(hex::enc(&e));
+        c
+    };
+    let d2 = match catch(|| Message::from_vec(&e)) {
+        Err(_) => return l.outcome("obs:decode-panic(C01)"),
+        Ok(Err(err)) => {
+            return l.violation(
+                &format!("reencoded-undecodable:{}", c01::entry::err_name(&err)),
+                &format!("decode(b) re-encodes to octets that Message::from_vec rejects: {err}"),
+                &wcase,
+            )
+        }
+        Ok(Ok(d)) => d,
+    };
+    if d2.metadata.truncation && !d1.metadata.truncation {
+        // the re-encoding did not fit into 65,535 octets (names the input compressed are written out):
+        // records were dropped and TC set, i.e. the string does not re-encode completely; not judged
+        t.reencode_failed += 1;
+        return l.outcome("obs:reencoding-exceeds-64k-and-is-truncated");
+    }
+    if let Some(f) = message_diff(&d1, &d2, false) {
+        return l.violation(&format!("redecode-differs:{f}"), "decode(encode(decode(b))) != decode(b)", &wcase);
+    }
+
+    // clause 3: raw RDATA of the original vs. the re-encoding
+    let w2 = match wire::walk(&e) {
+        Ok(w) if w.consumed == e.len() => w,
+        Ok(_) => return l.violation("wire:leftover-bytes", "re-encoding has octets after its last section", &wcase),
+        Err(err) => return l.violation("wire:walker-rejects", &format!("reference walker cannot read the re-encoding: {err:?}"), &wcase),
+    };
+    let w1 = match wire::walk(b) {
+        Ok(w) => w,
+        Err(_) => {
+            l.outcome("obs:reference-walker-rejects-an-accepted-input");
+            return;
+        }
+    };
+    let no_opt = |v: &[wire::RawRecord]| -> Vec<wire::RawRecord> { v.iter().filter(|r| r.rtype != 41).cloned().collect() };
+    let pairs = [(w1.answers.clone(), w2.answers.clone()), (w1.authorities.clone(), w2.authorities.clone()), (no_opt(&w1.additionals), no_opt(&w2.additionals))];
+    let mut has_records = false;
+    for (s1, s2) in &pairs {
+        if s1.len() != s2.len() {
+            return l.violation("wire:record-count", "sections of the re-encoding hold a different number of records", &wcase);
+        }
+        for (r1, r2) in s1.iter().zip(s2.iter()) {
+            has_records = true;
+            if r1.rtype != r2.rtype {
+                return l.violation("wire:record-type-changed", &format!("type {} became {}", r1.rtype, r2.rtype), &wcase);
+            }
+            if r1.name != r2.name {
+                return l.violation("wire:owner-changed", "owner name (case-sensitive) changed in the re-encoding", &wcase);
+            }
+            let (a, z) = (&b[r1.rdata_start..r1.rdata_end], &e[r2.rdata_start..r2.rdata_end]);
+            let t16 = r1.rtype;
+            if matches!(t16, 2 | 5 | 12 | 15 | 6) {
+                let (da, dz) = (decompress_rdata(b, t16, r1.rdata_start, r1.rdata_end), decompress_rdata(&e, t16, r2.rdata_start, r2.rdata_end));
+                if a.is_empty() && z.is_empty() {
+                    continue;
+                }
+                if da.is_none() || da != dz {
+                    return l.violation(
+                        &format!("rdata-changed-beyond-compression:type{t16}"),
+                        &format!("{} -> {} (expanded {:?} -> {:?})", hex::enc(a), hex::enc(z), da.map(|d| hex::enc(&d)), dz.map(|d| hex::enc(&d))),
+                        &wcase,
+                    );
+                }
+            } else if compressible_type(t16) {
+                // MD, MF, MB, MG, MR, MINFO: the statement allows them to differ; hickory keeps them opaque
+                if a != z {
+                    l.outcome("obs:obsolete-rfc1035-type-rdata-differs");
+                }
+            } else if a != z {
+                if noncompressible_name_has_pointer(t16, a) == Some(true) {
+                    // input outside RFC 3597 section 4 (pointer inside a name that must not be compressed):
+                    // the decoder expands it, so the octets cannot be kept; upstream's fuzz target skips these too
+                    l.outcome("obs:pointer-in-noncompressible-rdata-expanded");
+                } else {
+                    let scene = if z.len() < a.len() { "shrinks" } else if z.len() > a.len() { "grows" } else { "same-length" };
+                    return l.violation(
+                        &format!("rdata-not-preserved:type{t16}:{scene}"),
+                        &format!("RDATA {} became {} in the re-encoding", hex::enc(a), hex::enc(z)),
+                        &wcase,
+                    );
+                }
+            }
+        }
+    }
+    // OPT is rebuilt hop by hop (never passed through): log, do not judge
+    let opt = |v: &[wire::RawRecord], m: &[u8]| v.iter().find(|r| r.rtype == 41).map(|r| m[r.rdata_start..r.rdata_end].to_vec());
+    if opt(&w1.additionals, b) != opt(&w2.additionals, &e) {
+        l.outcome("obs:opt-rdata-not-octet-identical");
+    }
+    t.ok += 1;
+    if has_records || d1.edns.is_some() || d1.signature.is_some() || !d1.queries.is_empty() {
+        if hashed {
+            l.nontrivial(fnv64(b));
+        } else {
+            t.nontrivial += 1;
+        }
+    }
+}
+
+fn flush(t: Tally, fam: &str, l: &mut Local) {
+    let mut add = |k: String, n: u64| {
+        if n > 0 {
+            *l.outcomes.entry(k).or_insert(0) += n;
+        }
+    };
+    add(format!("d2:{fam}:rejected-by-decoder"), t.rejected);
+    add(format!("d2:{fam}:obs:reencode-refused"), t.reencode_failed);
+    add(format!("d2:{fam}:roundtrip-ok"), t.ok);
+    add(format!("d2:{fam}:nontrivial-by-construction"), t.nontrivial);
+}
+
+#[derive(Clone)]
+struct Block {
+    fam: &'static str,
+    /// 0 = header shape `arg` + string as body, 1 = string as RDATA of type `arg`, 2 = same inside an UPDATE message
+    mode: u8,
+    arg: u16,
+    alphabet: Option<&'static [u8]>,
+    len: usize,
+    first: u64,
+    count: u64,
+}
+
+fn blocks_for(fam: &'static str, mode: u8, arg: u16, alphabet: Option<&'static [u8]>, max_len: usize, out: &mut Vec<Block>) {
+    let k = alphabet.map(|a| a.len() as u64).unwrap_or(256);
+    for len in 0..=max_len {
+        let total = k.pow(len as u32);
+        let mut first = 0;
+        while first < total {
+            let count = (1u64 << 16).min(total - first);
+            out.push(Block { fam, mode, arg, alphabet, len, first, count });
+            first += count;
+        }
+    }
+}
+
+fn run_block(b: &Block, l: &mut Local) {
+    let mut t = Tally::default();
+    let mut s: Vec<u8> = vec![];
+    let mut buf: Vec<u8> = vec![];
+    for i in b.first..b.first + b.count {
+        s.clear();
+        match b.alphabet {
+            Some(a) => families::string_at(a, b.len, i, &mut s),
+            None => families::bytes_at(b.len, i, &mut s),
+        }
+        if b.mode == 0 {
+            buf.clear();
+            buf.extend_from_slice(&HEADER_SHAPES[b.arg as usize].bytes());
+            buf.extend_from_slice(&s);
+        } else {
+            families::message_with_rdata(b.arg, &s, b.mode == 2, &mut buf);
+        }
+        judge_d2(&buf, b.len <= 2, &mut t, l, &|| json!({"dir": 2, "hex": hex::enc(&buf)}));
+    }
+    if b.first == 0 && b.len == 2 && l.samples.len() < 3 {
+        l.sample(json!({"dir": 2, "family": b.fam, "mode": b.mode, "arg": b.arg, "len": b.len, "strings": b.count}));
+    }
+    flush(t, b.fam, l);
+}
+
+// ------------------------------------------------------------------------------------------
+
+fn replay(ctx: &Ctx, case: &Value) {
+    ctx.with_local(|l| {
+        if case["dir"].as_u64() == Some(2) {
+            let mut t = Tally::default();
+            let buf = if let Some(f) = case["family"].as_str() {
+                families::growth(f, case["n"].as_u64().unwrap_or(1) as u32, case["qd1"].as_bool().unwrap_or(false)).unwrap_or_default()
+            } else {
+                hex::dec(case["hex"].as_str().unwrap_or("")).unwrap_or_default()
+            };
+            judge_d2(&buf, true, &mut t, l, &|| case.clone());
+            return;
+        }
+        match case["family"].as_str().unwrap_or("spec") {
+            "sweep" => {
+                let v = case["variant"].as_str().unwrap_or("");
+                let v = SWEEPS.iter().find(|s| **s == v).copied().unwrap_or("same-owner");
+                let (m, exp) = sweep(v, case["n"].as_u64().unwrap_or(0) as usize);
+                judge_d1(&m, &exp, l, &|| case.clone());
+            }
+            "offset" => {
+                let (m, exp) = offset_case(case["variant"].as_u64().unwrap_or(0) as u8, case["target"].as_u64().unwrap_or(0x3fff) as usize);
+                judge_d1(&m, &exp, l, &|| case.clone());
+            }
+            _ => {
+                let al = Alpha::new(case["thorough"].as_bool().unwrap_or(false));
+                let (m, exp) = Spec::from_json(case).build(&al);
+                judge_d1(&m, &exp, l, &|| case.clone());
+            }
+        }
+    });
+}
+
+const SEC_PAIRS: [(u8, u8); 6] = [(0, 0), (0, 1), (0, 2), (1, 1), (1, 2), (2, 2)];
+const SEC_TRIPLES: [(u8, u8, u8); 10] = [(0, 0, 0), (0, 0, 1), (0, 0, 2), (0, 1, 1), (0, 1, 2), (0, 2, 2), (1, 1, 1), (1, 1, 2), (1, 2, 2), (2, 2, 2)];
+
+fn main() {
+    let ctx = Ctx::from_args("C02", "exploration");
+    let thorough = !ctx.quick();
+    ctx.case_timeout_s.store(120, std::sync::atomic::Ordering::Relaxed);
+
+    if let Some((_key, case)) = ctx.replay_case() {
+        replay(&ctx, &case);
+        ctx.finish(false);
+    }
+
+    ctx.set_rule(
+        "E-ENUM. Direction 1: messages assembled from a record alphabet R (every RData variant of the build with 2-3 value shapes, \
+         each with its RDATA wire form hand-written from the RFC; owners {., a.z., A.z., b.a.z., <63>.z.} x classes {IN,CH,NONE,ANY,4096} \
+         x TTL {0,1,2^31-1,2^31,2^32-1}): ALL bodies of <=2 records (quick, thorough on the larger alphabet) / <=3 records (thorough, \
+         compact alphabet) in ALL section placements x questions {none, a.z. A, A.Z. ANY CH, two} x EDNS/TSIG combinations; the full EDNS \
+         (15 variants) x TSIG (4 variants) product on 1-record bodies; ALL 2^7 header flag combinations x 7 opcodes x 11 rcodes \
+         (extended ones with EDNS); UPDATE messages with <=2 records from {empty-RDATA records of 6 types x 3 classes, 10 ordinary}; \
+         compression sweeps: 7 families x every n = 0..200 records, first-occurrence offsets 0x3ff0..0x4010 x 2 variants. Oracle: \
+         independent walker reads the encoding completely, finds the assembled names case-sensitively and the RFC RDATA octets \
+         (after name expansion for NS/CNAME/PTR/MX/SOA); Message::from_vec(Message::to_vec(m)) equals m field by field (names eq_case, \
+         TTLs, numeric class/rcode). Direction 2: every message-shaped string of the C01 families (header shape + ALL bodies of \
+         length <=2/3; ALL strings over S of length <=6/7 as body; ALL strings (<=2/3 octets, S: <=5/6) as RDATA of every type with a \
+         dedicated decoder in plain and UPDATE messages; complete single-edit neighbourhoods of the message seed corpus; 22 growth \
+         families) that decodes and re-encodes: decode(encode(decode(b))) == decode(b), and RDATA of every type other than \
+         NS/CNAME/PTR/MX/SOA/obsolete-1035/OPT is octet-identical (inputs with a compression pointer inside a name that RFC 3597 \
+         forbids to compress are logged, not judged). distinct_nontrivial: direction 1 = distinct encodings that contain a \
+         compression pointer, EDNS, TSIG or an extended rcode; direction 2 = distinct accepted inputs with at least one question or \
+         record (hash-counted for strings <= 2 octets, edits and growth; longer strings are distinct by construction: see \
+         outcome_classes['*nontrivial-by-construction']).",
+    );
+    ctx.assume("vref::wire (RFC 1035 4.1 walker) and c01::wirex (RFC layouts of name-bearing RDATA) are the reference for what is on the wire");
+    ctx.assume("the RDATA wire forms of the record alphabet were written by hand from RFC 1035, 2782, 3403, 4034, 4255, 4398, 5155, 6698, 7344, 7477, 7929, 8162, 8659, 9460");
+    ctx.assume("valid message = FQDN names, RDATA of >= 1 octet outside UPDATE, extended rcode only with EDNS (Edns::rcode_high is treated as derived from the header rcode), OPT only as Edns, TSIG only as signature, SIG only in the additional section, ECS address bits beyond the prefix zero");
+
+    let al = Alpha::new(thorough);
+    ctx.set("rdata_alphabet", json!(al.entries.len()));
+    ctx.set("record_alphabet", json!({"compact": al.levels[0].len(), "quick": al.levels[1].len(), "thorough": al.levels[2].len()}));
+
+    // alphabet self-check: constructor-built values and RFC octets denote the same RDATA
+    for e in &al.entries {
+        if let Some(built) = &e.built {
+            match RData::read(hickory_proto::serialize::binary::BinDecoder::new(&e.wire), RecordType::from(e.rtype)) {
+                Ok(d) if &d == built && rdata_names_eq_case(&d, built) => {}
+                other => ctx.with_local(|l| {
+                    l.violation(
+                        &format!("rfc-octets-decode-differently:type{}", e.rtype),
+                        &format!("entry {}: RFC RDATA {} decodes to {:?}, constructors give {:?}", e.tag, hex::enc(&e.wire), other, built),
+                        || json!({"dir": 0, "entry": e.tag}),
+                    )
+                }),
+            }
+        }
+    }
+
+    // ---- direction 1 -------------------------------------------------------------------------
+    let ne = al.edns.len() as i32;
+    let nt = al.tsig.len() as i32;
+    // (q, edns, tsig) combinations for multi-record bodies; index-dependent entries rotate through all variants
+    let combos = |i: u64| -> Vec<(u8, i32, i32)> {
+        let (e, t) = ((i % ne as u64) as i32, (i % nt as u64) as i32);
+        let mut v = vec![(1, -1, -1), (0, 1, -1), (2, -1, t), (3, e, (t + 1) % nt)];
+        if thorough {
+            v.push((1, e, -1));
+            v.push((0, -1, -1));
+        }
+        v
+    };
+    let run_spec = |s: &Spec, l: &mut Local| {
+        let (m, exp) = s.build(&al);
+        judge_d1(&m, &exp, l, &|| s.to_json(thorough));
+    };
+
+    // bodies of 0, 1, 2 records
+    let lvl: u8 = if thorough { 2 } else { 1 };
+    let n = al.levels[lvl as usize].len() as u64;
+    ctx.with_local(|l| {
+        for q in 0..4 {
+            for e in -1..ne {
+                for t in -1..nt {
+                    run_spec(&Spec { level: lvl, q, edns: e, tsig: t, flags: 1, ..Default::default() }, l);
+                }
+            }
+        }
+    });
+    // 1 record: every section x every question x FULL EDNS x TSIG product
+    let od = Odometer::new(&[n, 3, 4, (ne + 1) as u64, (nt + 1) as u64]);
+    ctx.set("d1_one_record", json!(od.space()));
+    ctx.par_run(od.space(), 256, |i, l| {
+        let d = od.get(i);
+        run_spec(
+            &Spec { level: lvl, recs: vec![(d[0] as usize, d[1] as u8)], q: d[2] as u8, edns: d[3] as i32 - 1, tsig: d[4] as i32 - 1, flags: 0x09, ..Default::default() },
+            l,
+        );
+        if i % 50_000 == 0 {
+            l.sample(json!({"dir": 1, "family": "one-record", "index": i}));
+        }
+    });
+    // 2 records
+    let od = Odometer::new(&[n, n, 6]);
+    ctx.set("d1_two_record_bodies", json!(od.space()));
+    ctx.par_run(od.space(), 64, |i, l| {
+        let d = od.get(i);
+        let (s1, s2) = SEC_PAIRS[d[2] as usize];
+        for (q, e, t) in combos(i) {
+            run_spec(&Spec { level: lvl, recs: vec![(d[0] as usize, s1), (d[1] as usize, s2)], q, edns: e, tsig: t, flags: 0x03, ..Default::default() }, l);
+        }
+        if i % 100_000 == 0 {
+            l.sample(json!({"dir": 1, "family": "two-records", "recs": [d[0], d[1]], "secs": [s1, s2]}));
+        }
+    });
+    // 3 records (thorough): compact alphabet
+    if thorough {
+        let n0 = al.levels[0].len() as u64;
+        let od = Odometer::new(&[n0, n0, n0, 10]);
+        ctx.set("d1_three_record_bodies", json!(od.space()));
+        ctx.par_run(od.space(), 64, |i, l| {
+            let d = od.get(i);
+            let (s1, s2, s3) = SEC_TRIPLES[d[3] as usize];
+            let (e, t) = ((i % ne as u64) as i32, (i % nt as u64) as i32);
+            for (q, e, t) in [(1u8, -1, -1), (2, e, t)] {
+                run_spec(&Spec { level: 0, recs: vec![(d[0] as usize, s1), (d[1] as usize, s2), (d[2] as usize, s3)], q, edns: e, tsig: t, flags: 0x01, ..Default::default() }, l);
+            }
+        });
+    }
+    // header: all flags x opcodes x rcodes, 1-record body rotating through the compact alphabet
+    let n0 = al.levels[0].len() as u64;
+    let od = Odometer::new(&[128, OPCODES.len() as u64, RCODES.len() as u64, 2, 2]);
+    ctx.set("d1_header_cases", json!(od.space()));
+    ctx.par_run(od.space(), 64, |i, l| {
+        let d = od.get(i);
+        let rcode = RCODES[d[2] as usize];
+        let with_edns = rcode > 15 || d[3] == 1;
+        if rcode > 15 && d[3] == 1 {
+            return; // same as d[3] == 0
+        }
+        let mut ri = (i % n0) as usize;
+        if al.levels[0][ri].record.record_type() == RecordType::SIG {
+            ri = 0;
+        }
+        let opcode = OPCODES[d[1] as usize];
+        run_spec(
+            &Spec {
+                level: 0,
+                recs: vec![(ri, (i % 3) as u8)],
+                q: (i % 4) as u8,
+                edns: if with_edns { (i % ne as u64) as i32 } else { -1 },
+                tsig: if d[4] == 1 { (i % nt as u64) as i32 } else { -1 },
+                flags: d[0] as u8,
+                opcode,
+                rcode,
+                ..Default::default()
+            },
+            l,
+        );
+    });
+    // UPDATE: <=2 records over {empty-RDATA records} U {10 ordinary}
+    let upd_types: [u16; 6] = [1, 255, 6, 2, 16, 65280];
+    let upd_classes: [u16; 3] = [255, 254, 1];
+    let mut atoms: Vec<(Option<(u16, u16)>, usize)> = vec![];
+    for t in upd_types {
+        for c in upd_classes {
+            atoms.push((Some((t, c)), 0));
+        }
+    }
+    for k in 0..10usize {
+        atoms.push((None, (k * 7) % al.levels[0].len()));
+    }
+    let na = atoms.len() as u64;
+    let od = Odometer::new(&[na + 1, na + 1, 6]);
+    ctx.set("d1_update_cases", json!(od.space()));
+    ctx.par_run(od.space(), 64, |i, l| {
+        let d = od.get(i);
+        let (s1, s2) = SEC_PAIRS[d[2] as usize];
+        let mut sp = Spec { level: 0, q: 3, opcode: 5, flags: (i % 2) as u8, edns: if i % 5 == 0 { 0 } else { -1 }, tsig: if i % 7 == 0 { 0 } else { -1 }, ..Default::default() };
+        for (a, s) in [(d[0], s1), (d[1], s2)] {
+            if a == na {
+                continue;
+            }
+            match atoms[a as usize] {
+                (Some((t, c)), _) => sp.upd.push((t, c, s)),
+                (None, ri) => {
+                    if al.levels[0][ri].record.record_type() != RecordType::SIG || s == 2 {
+                        sp.recs.push((ri, s))
+                    }
+                }
+            }
+        }
+        run_spec(&sp, l);
+    });
+    // compression sweeps
+    let od = Odometer::new(&[SWEEPS.len() as u64, 201]);
+    ctx.par_run(od.space(), 4, |i, l| {
+        let d = od.get(i);
+        let v = SWEEPS[d[0] as usize];
+        let (m, exp) = sweep(v, d[1] as usize);
+        judge_d1(&m, &exp, l, &|| json!({"dir": 1, "family": "sweep", "variant": v, "n": d[1]}));
+        if d[1] == 200 {
+            l.sample(json!({"dir": 1, "family": "sweep", "variant": v, "n": 200, "encoded_len": m.to_vec().map(|b| b.len()).unwrap_or(0)}));
+        }
+    });
+    let od = Odometer::new(&[2, 0x4010 - 0x3ff0 + 1]);
+    ctx.par_run(od.space(), 2, |i, l| {
+        let d = od.get(i);
+        let target = 0x3ff0 + d[1] as usize;
+        let (m, exp) = offset_case(d[0] as u8, target);
+        // the construction must really put the first occurrence at `target`
+        if let Ok(b) = m.to_vec() {
+            if let Ok(w) = wire::walk(&b) {
+                let at = if d[0] == 0 { w.answers[1].start } else { w.answers[1].rdata_start + 6 };
+                if at != target {
+                    l.outcome("machinery:offset-case-misplaced");
+                }
+            }
+        }
+        judge_d1(&m, &exp, l, &|| json!({"dir": 1, "family": "offset", "variant": d[0], "target": target}));
+    });
+
+    // ---- direction 2 -------------------------------------------------------------------------
+    let mut blocks: Vec<Block> = vec![];
+    let (l1, l_body, l_rd) = if thorough { (3, 7, 6) } else { (2, 6, 5) };
+    let codes = families::distinct_decoder_codes();
+    for h in 0..HEADER_SHAPES.len() as u16 {
+        blocks_for("f1", 0, h, None, l1, &mut blocks);
+        blocks_for("f2", 0, h, Some(&S), l_body, &mut blocks);
+    }
+    for &c in &codes {
+        for mode in [1u8, 2] {
+            // opaque decoders and the UPDATE twin stay one octet shorter in the all-bytes family
+            let l1c = if thorough && (mode == 2 || c == 99 || c == 65280) { l1 - 1 } else { l1 };
+            blocks_for("f1", mode, c, None, l1c, &mut blocks);
+            blocks_for("f2", mode, c, Some(&S), if mode == 2 { l_rd - 1 } else { l_rd }, &mut blocks);
+        }
+    }
+    ctx.set("d2_f1_f2_strings", json!(blocks.iter().map(|b| b.count).sum::<u64>()));
+    ctx.par_run(blocks.len() as u64, 2, |i, l| run_block(&blocks[i as usize], l));
+
+    // f3: edits of the message seeds
+    let recs0 = record_alphabet(&al.entries, 0);
+    let msg_seeds = seeds::message_seeds(&al.entries, &recs0, thorough);
+    ctx.set("d2_f3_seeds", json!(msg_seeds.len()));
+    ctx.par_run(msg_seeds.len() as u64, 1, |i, l| {
+        let s = &msg_seeds[i as usize];
+        let mut t = Tally::default();
+        let mut seed_ok = Tally::default();
+        judge_d2(&s.bytes, true, &mut seed_ok, l, &|| json!({"dir": 2, "hex": hex::enc(&s.bytes), "seed": s.tag}));
+        if seed_ok.ok == 1 {
+            l.outcome("d2:f3:seed-roundtrip-ok");
+        }
+        let n = families::edits(&s.bytes, false, |b| judge_d2(b, true, &mut t, l, &|| json!({"dir": 2, "hex": hex::enc(b), "seed": s.tag})));
+        if l.samples.len() < 5 {
+            l.sample(json!({"dir": 2, "family": "f3", "seed": s.tag, "edits": n}));
+        }
+        flush(t, "f3", l);
+    });
+    // f3b: edits of the RDATA seeds (RFC octets of every alphabet entry, OPT, TSIG) inside a one-record message
+    let rd_seeds = seeds::rdata_seeds(&al.entries);
+    ctx.set("d2_f3_rdata_seeds", json!(rd_seeds.len()));
+    ctx.par_run(rd_seeds.len() as u64, 1, |i, l| {
+        let (tag, rtype, w) = &rd_seeds[i as usize];
+        let mut t = Tally::default();
+        let mut buf = vec![];
+        families::edits(w, thorough, |r| {
+            families::message_with_rdata(*rtype, r, false, &mut buf);
+            judge_d2(&buf, true, &mut t, l, &|| json!({"dir": 2, "hex": hex::enc(&buf), "seed": tag}));
+        });
+        flush(t, "f3", l);
+    });
+    // f4: growth families
+    let mut gitems: Vec<(&'static str, bool, u32)> = vec![];
+    for f in families::GROWTH_FAMILIES.iter() {
+        for qd1 in [false, true] {
+            for n in families::growth_sizes(f, qd1) {
+                gitems.push((f, qd1, n));
+            }
+        }
+    }
+    ctx.set("d2_f4_cases", json!(gitems.len()));
+    ctx.par_run(gitems.len() as u64, 4, |i, l| {
+        let (f, qd1, n) = gitems[i as usize];
+        let Some(b) = families::growth(f, n, qd1) else { return };
+        let mut t = Tally::default();
+        judge_d2(&b, true, &mut t, l, &|| json!({"dir": 2, "family": f, "n": n, "qd1": qd1}));
+        flush(t, "f4", l);
+    });
+
+    // vacuity
+    for k in ["d1:ok:compressed", "d1:ok:plain", "d2:f1:roundtrip-ok", "d2:f2:roundtrip-ok", "d2:f3:roundtrip-ok", "d2:f4:roundtrip-ok", "d2:f3:seed-roundtrip-ok", "d2:f3:rejected-by-decoder"] {
+        if ctx.outcome_count(k) == 0 {
+            ctx.machinery_failure(&format!("vacuous run: outcome class {k} never occurred"));
+        }
+    }
+    if ctx.outcome_count("machinery:offset-case-misplaced") > 0 {
+        ctx.machinery_failure("offset sweep: the first occurrence is not where the case claims");
+    }
+    ctx.finish(true);
+}
